@@ -126,6 +126,16 @@ func falseAtD(p *core.Prog, at ssa.Instruction, depth int) []cmp {
 					out = append(out, falseAtD(p, pb.Instrs[len(pb.Instrs)-1], depth+1)...)
 				}
 			}
+			// several predecessors merge before this test (two loop exits, an if/else join): a predecessor whose
+			// own edge establishes the opposite of what holds on this side cannot have been taken; if that leaves
+			// one, what is known on its edge is known here
+			if depth < 3 {
+				if pb, e := consistentPred(ifi, bi); pb != nil {
+					pif := pb.Instrs[len(pb.Instrs)-1].(*ssa.If)
+					out = append(out, edgeFalse(pif, e)...)
+					out = append(out, falseAtD(p, pif, depth+1)...)
+				}
+			}
 			if bi == 1 { // false edge: cond is false
 				for _, d := range disjuncts(ifi.Cond) {
 					if c, ok := asCmp(d, ifi, false); ok {
@@ -349,4 +359,86 @@ func feasiblePred(ifi *ssa.If, val bool) *ssa.BasicBlock {
 		return nil
 	}
 	return feas
+}
+
+// edgeFalse: the comparisons known to be false when the branch ifi is left through successor #bi.
+func edgeFalse(ifi *ssa.If, bi int) []cmp {
+	var out []cmp
+	if bi == 1 {
+		for _, d := range disjuncts(ifi.Cond) {
+			if c, ok := asCmp(d, ifi, false); ok {
+				out = append(out, c)
+			}
+		}
+	} else if c, ok := asCmp(ifi.Cond, ifi, true); ok {
+		out = append(out, c)
+	}
+	return out
+}
+
+func negOp(op token.Token) token.Token {
+	return map[token.Token]token.Token{token.EQL: token.NEQ, token.NEQ: token.EQL, token.LSS: token.GEQ, token.GEQ: token.LSS, token.GTR: token.LEQ, token.LEQ: token.GTR}[op]
+}
+
+// consistentPred: the block of ifi has several predecessors; given that ifi is left through successor #bi,
+// the single predecessor whose own branch edge does not contradict that (and its edge index). nil when
+// none or more than one remains, or when a predecessor does not end in a branch.
+func consistentPred(ifi *ssa.If, bi int) (*ssa.BasicBlock, int) {
+	m := ifi.Block()
+	if len(m.Preds) < 2 {
+		return nil, 0
+	}
+	here := edgeFalse(ifi, bi)
+	if len(here) == 0 {
+		return nil, 0
+	}
+	var keep *ssa.BasicBlock
+	keepE, n := 0, 0
+	for _, pb := range m.Preds {
+		if len(pb.Instrs) == 0 {
+			return nil, 0
+		}
+		pif, ok := pb.Instrs[len(pb.Instrs)-1].(*ssa.If)
+		if !ok {
+			return nil, 0 // an unconditional predecessor: nothing known about it
+		}
+		for e, s := range pb.Succs {
+			if s != m {
+				continue
+			}
+			contradicts := false
+			for _, a := range edgeFalse(pif, e) {
+				for _, b := range here {
+					// a and b both claimed false, but b is the negation of a
+					if a.Op == negOp(b.Op) && sameOperand(a.X, b.X) && sameOperand(a.Y, b.Y) {
+						contradicts = true
+					}
+				}
+			}
+			if !contradicts {
+				n++
+				keep, keepE = pb, e
+			}
+		}
+	}
+	if n != 1 {
+		return nil, 0
+	}
+	return keep, keepE
+}
+
+// sameOperand: the same value, or equal constants.
+func sameOperand(a, b ssa.Value) bool {
+	if core.SameValue(a, b) {
+		return true
+	}
+	ca, ok1 := a.(*ssa.Const)
+	cb, ok2 := b.(*ssa.Const)
+	if !ok1 || !ok2 {
+		return false
+	}
+	if ca.IsNil() || cb.IsNil() {
+		return ca.IsNil() && cb.IsNil()
+	}
+	return ca.Value != nil && cb.Value != nil && ca.Value.Kind() == cb.Value.Kind() && constant.Compare(ca.Value, token.EQL, cb.Value)
 }
